@@ -61,10 +61,11 @@ func hangCheck(c *core.Ctx, cl *hs.Client, cs any) bool {
 	}
 	dump, lib := core.ClassifyHang()
 	if len(lib) > 0 {
-		c.Violate("wedge", "goroutine blocked inside library: "+strings.Join(lib, "; "), "the serving goroutine neither answered, nor blocked for input, nor closed the connection\n"+trim(dump, 3000), cs)
+		c.Violate("wedge", "goroutine blocked or spinning inside library: "+strings.Join(lib, "; "), "the serving goroutine neither answered, nor blocked for input, nor closed the connection\n"+trim(dump, 3000), cs)
 	} else {
 		c.Inconclusive("watchdog fired without a library-blocked goroutine")
 	}
+	c.Finish() // a wedged goroutine would also wedge Server.Close: end the child now
 	return true
 }
 
